@@ -148,8 +148,8 @@ class Url:
                 COLON.join(last_token[:-1])
         except ValueError:
             # If unable to convert last part into port,
-            # treat entire data as host
-            host, port = raw, None
+            # treat entire data (sans userinfo) as host
+            host, port = split_at[-1], None
         rhost = host.decode('utf-8')
         # An IPv6 literal with only one of its brackets cannot be interpreted
         if (rhost[0] == '[') != (rhost[-1] == ']'):
